@@ -201,8 +201,8 @@ func (hdr *TxHeader) ReadFrom(b []byte) error {
 			mdLen := int(binary.BigEndian.Uint16(b[i:]))
 			i += sszSize
 
-			// nentries follows metadata
-			if len(b) < i+mdLen+lszSize || mdLen > maxTxMetadataLen {
+			// nentries, eh, blTxID and blRoot follow metadata
+			if len(b) < i+mdLen+lszSize+sha256.Size+txIDSize+sha256.Size || mdLen > maxTxMetadataLen {
 				return ErrCorruptedData
 			}
 
